@@ -34,6 +34,15 @@ Atom(n) ==
     [] n = "r12_155" -> RefD(12, <<1, 5, 5>>) [] n = "r12_1155" -> RefD(12, <<1, 1, 5, 5>>)
     \* a group that contains an optional (possibly non-participating) group:  ( a ( b )? ( a ) )
     [] n = "g_nest" -> Grp(Cat(Chr(LA), Cat(Opt(Grp(Chr(LB)), FALSE), Grp(Chr(LA)))))
+    \* groups that can take part in a match with an EMPTY capture, alone and between ungrouped text
+    [] n = "g_bs" -> Grp(Star(Chr(LB), FALSE))                    \* (b*)
+    [] n = "g_bo" -> Grp(Opt(Chr(LB), FALSE))                     \* (b?)
+    [] n = "g_e"  -> Grp(Eps)                                     \* ()
+    [] n = "g_ae" -> Grp(Alt(Chr(LA), Eps))                       \* (a|)
+    [] n = "g_mid" -> Cat(Chr(LA), Cat(Grp(Star(Chr(LB), FALSE)), Chr(LA)))      \* a(b*)a
+    [] n = "g_mid2" -> Cat(Chr(LA), Cat(Grp(Eps), Chr(LB)))                      \* a()b
+    [] n = "g_altp" -> Plus(Alt(Grp(Chr(LA)), Grp(Chr(LB))), FALSE)              \* (?:(a)|(b))+
+    [] n = "g_in"  -> Grp(Cat(Grp(Chr(LA)), Opt(Grp(Chr(LB)), FALSE)))           \* ((a)(b)?)
     [] n = "c_ab"  -> Cls(<<IChr(LA), IChr(LB)>>, FALSE, <<>>)                              \* [ab]
     [] n = "c_na"  -> Cls(<<IChr(LA)>>, TRUE, <<>>)                                         \* [^a]
     [] n = "c_A"   -> Cls(<<IChr(UA)>>, FALSE, <<>>)                                        \* [A]
@@ -49,7 +58,8 @@ Atom(n) ==
     [] n = "c_sp"  -> Cls(<<IChr(SP), IChr(LA)>>, FALSE, <<>>)                              \* [ a]
 
 UnaryNames == {"star", "plus", "opt", "starL", "plusL", "optL", "rep2", "rep12", "rep1U", "rep0U",
-               "rep02", "rep00", "rep12L", "grp", "dup"}
+               "rep02", "rep00", "rep12L", "grp", "dup",
+               "rep10", "rep2_10", "rep9_10", "rep3_12", "rep0_11", "rep10U", "rep2_10L"}
 Wrap(op, x) ==
   CASE op = "star" -> Star(x, FALSE) [] op = "starL" -> Star(x, TRUE)
     [] op = "plus" -> Plus(x, FALSE) [] op = "plusL" -> Plus(x, TRUE)
@@ -57,6 +67,9 @@ Wrap(op, x) ==
     [] op = "rep2"  -> Rep(x, 2, 2)  [] op = "rep12" -> Rep(x, 1, 2) [] op = "rep1U" -> Rep(x, 1, INF)
     [] op = "rep0U" -> Rep(x, 0, INF) [] op = "rep02" -> Rep(x, 0, 2) [] op = "rep00" -> Rep(x, 0, 0)
     [] op = "rep12L" -> [t |-> "rep", r |-> x, n |-> 1, m |-> 2, lazy |-> TRUE]
+    [] op = "rep10" -> Rep(x, 10, 10) [] op = "rep2_10" -> Rep(x, 2, 10) [] op = "rep9_10" -> Rep(x, 9, 10)
+    [] op = "rep3_12" -> Rep(x, 3, 12) [] op = "rep0_11" -> Rep(x, 0, 11) [] op = "rep10U" -> Rep(x, 10, INF)
+    [] op = "rep2_10L" -> [t |-> "rep", r |-> x, n |-> 2, m |-> 10, lazy |-> TRUE]
     [] op = "grp"  -> Grp(x) [] op = "dup" -> Dup(x)
 Bin(op, x, y) == IF op = "cat" THEN Cat(x, y) ELSE Alt(x, y)
 
